@@ -87,6 +87,20 @@ Check remove_legacy_panics :
   run false [NewVec 0 [OLit (VInt 1)]; Remove 0 1] = ([], Some Err) /\
   spec_run [NewVec 0 [OLit (VInt 1)]; Remove 0 1] = ([], Some Err).
 
+(* a value read from a container and handed on by a function (`return w[i]`, also as the callback of map, also
+   `return m[k]`) is the value the element has at that moment: later updates of w / m do not show in the result
+   (repaired by fixes/c13-return-element-value.diff: the `ret` instruction used to hand on the element VIEW) *)
+Example C13_returned_element_is_a_value :
+  let h := [NewVec 0 [OLit (VInt 1); OLit (VInt 2)]; NewVec 1 [OLit (VInt 7); OLit (VInt 8)];
+            MapLit 4 [(KStr [97], OLit (VInt 5))];
+            MapElem 2 1 0 0; MapKeyElem 5 1 4 (KStr [97]); NewVec 3 [OCall 0 1];
+            IndexWrite 0 0 (OLit (VInt 99)); MapSet 4 (KStr [97]) (OLit (VInt 6)); Clear 0;
+            Print 2; Print 5; Print 3; NewVec 6 []; MapElem 7 6 0 5; Print 7; MapElem 8 1 0 5] in
+  spec_run h = ([ObsVal (OList [OInt 1; OInt 1]); ObsVal (OList [OInt 5; OInt 5]); ObsVal (OList [OInt 2]);
+                 ObsVal (OList [])], Some Err)
+  /\ fst (run false h) = fst (spec_run h) /\ snd (run false h) = Some Err.
+Proof. vm_compute. repeat split. Qed.
+
 (* non-vacuity: a history with an alias, a clone, a nested list, a map, bags and a final out-of-range read is
    inside the theorem's domain; the alias sees the push, the clone does not, the failure ends the run *)
 Example C13_nonvacuous :
